@@ -6,9 +6,13 @@
    doUpdateFileToIndex, Index.SkipUnless) mutates the cached cells in place, before SetIndex writes the file.
    An operation may fail between two cell mutations (FailOp): nothing is written, the (mtime, size) stamp still
    matches, and the cache now disagrees with the file.  DeepCopy = TRUE models the repair (Index() returns
-   private cells): the invariant then holds.  External rewrites change the content and the size or the mtime.  *)
+   private cells): the invariant then holds.  External rewrites change the content and the size or the mtime.
+   A modification time is 3*second + subsecond-part (three sub-second slots per second; time only moves forward): an external
+   rewrite may keep the size and change the mtime ONLY BELOW ONE SECOND (how = "subsec").  The stamp must therefore
+   be compared at full resolution: Granularity = "seconds" models a cache that keeps whole seconds only
+   (modTime.Unix()) and violates the invariant; Granularity = "full" (what statIndexCache does) holds.          *)
 EXTENDS Integers, FiniteSets, TLC
-CONSTANTS DeepCopy, MaxClock
+CONSTANTS DeepCopy, MaxClock, Granularity
 
 Paths == {"a", "b"}          \* two files of one directory
 Vals == {1, 2}
@@ -20,7 +24,8 @@ Init == /\ disk = [content |-> [p \in Paths |-> 1], mtime |-> 0, size |-> 0]
         /\ cache = [present |-> FALSE, cells |-> [p \in Paths |-> 1], mtime |-> 0, size |-> 0]
         /\ wt = [p \in Paths |-> 1] /\ pc = "idle" /\ work = [p \in Paths |-> 1] /\ pending = {} /\ clock = 0
 
-Hit == cache.present /\ cache.mtime = disk.mtime /\ cache.size = disk.size
+SameTime(a, b) == IF Granularity = "seconds" THEN a \div 3 = b \div 3 ELSE a = b
+Hit == cache.present /\ SameTime(cache.mtime, disk.mtime) /\ cache.size = disk.size
 \* what Index() returns right now
 View == IF Hit THEN cache.cells ELSE disk.content
 
@@ -47,16 +52,19 @@ FailOp == /\ pc # "idle" /\ pc' = "idle" /\ pending' = {}
 \* SetIndex: write the file, stat it, cache the written index
 Finish == /\ pc # "idle" /\ pending = {} /\ clock < MaxClock
           /\ clock' = clock + 1
-          /\ disk' = [disk EXCEPT !.content = work, !.mtime = clock']
-          /\ cache' = [present |-> TRUE, cells |-> work, mtime |-> clock', size |-> disk.size]
+          /\ disk' = [disk EXCEPT !.content = work, !.mtime = 3 * clock']
+          /\ cache' = [present |-> TRUE, cells |-> work, mtime |-> 3 * clock', size |-> disk.size]
           /\ pc' = "idle" /\ UNCHANGED <<wt, work, pending>>
 
 \* another process rewrites the file: the content changes and so does the size or the mtime (never neither)
 External(p, v, how) == /\ pc = "idle" /\ clock < MaxClock /\ disk.content[p] # v
+                       /\ how = "subsec" => disk.mtime % 3 < 2
                        /\ clock' = clock + 1
                        /\ disk' = [content |-> [disk.content EXCEPT ![p] = v],
-                                   mtime |-> IF how = "size" THEN disk.mtime ELSE clock',
-                                   size |-> IF how = "mtime" THEN disk.size ELSE disk.size + 1]
+                                   mtime |-> CASE how = "size" -> disk.mtime
+                                               [] how = "subsec" -> disk.mtime + 1         \* later within the same second
+                                               [] OTHER -> 3 * clock',
+                                   size |-> IF how \in {"mtime", "subsec"} THEN disk.size ELSE disk.size + 1]
                        /\ UNCHANGED <<cache, wt, pc, work, pending>>
 
 Next == \/ \E p \in Paths, v \in Vals : Edit(p, v)
@@ -64,7 +72,7 @@ Next == \/ \E p \in Paths, v \in Vals : Edit(p, v)
         \/ Begin("AddDir", Paths) \/ Begin("SparseReset", Paths)
         \/ \E p \in Paths : StepCell(p)
         \/ FailOp \/ Finish
-        \/ \E p \in Paths, v \in Vals, how \in {"size", "mtime", "both"} : External(p, v, how)
+        \/ \E p \in Paths, v \in Vals, how \in {"size", "mtime", "subsec", "both"} : External(p, v, how)
 
 \* the property, observed whenever no operation is in flight
 ViewIsDisk == pc = "idle" => View = disk.content
